@@ -198,6 +198,11 @@ func c13Menu() []c13op {
 		sc := slackFr(frsFromBig([]*big.Int{bi(1), prfR(seed, "c13", 0), new(big.Int).Sub(bigR, bi(2))}))
 		return []interface{}{&pts, &sc}, func() string { e, err := ipa.MultiScalar(pts, sc); return dg(e.Bytes(), err) }, none
 	})
+	add("MultiScalar(5 points, zero scalars in between)", func(c *ipa.IPAConfig, seed int64) ([]interface{}, func() string, func() string) {
+		pts := append(make([]banderwagon.Element, 0, 20), c.SRS[21:26]...)
+		sc := slackFr(frsFromBig([]*big.Int{bi(0), prfR(seed, "c13", 7), bi(0), bi(5), bi(0)}))
+		return []interface{}{&pts, &sc}, func() string { e, err := ipa.MultiScalar(pts, sc); return dg(e.Bytes(), err) }, none
+	})
 	add("MultiScalar(config SRS itself, 256 scalars)", func(c *ipa.IPAConfig, seed int64) ([]interface{}, func() string, func() string) {
 		sc := polyF(seed, 13)
 		return []interface{}{&sc}, func() string { e, err := ipa.MultiScalar(c.SRS, sc); return dg(e.Bytes(), err) }, none
@@ -382,7 +387,7 @@ func c13Probe(c *ipa.IPAConfig, seed int64) string {
 func init() {
 	core.Register(&core.Check{
 		ID: "C13", Level: "model_checking",
-		Rule:   "explicit-state search on the fingerprint of everything shared and mutable (deep reflect/unsafe hash of the IPAConfig incl. all precomputed tables, and of every package-level variable: generator, identities, labels, moduli, sqrt tables ...): a menu of 26 API calls with fresh arguments is applied from every reachable state; after EVERY call the shared fingerprint must equal the initial one (on a pure tree the state space is one state with 26 self-loops and the search completes), every caller-supplied argument must be bit-identical to its pre-call deep copy up to slice capacity (commitments given to CreateMultiProof may only change representation), and each call's result digest must equal its result on a fresh process state; then ALL histories of depth 2 (3 thorough) over the menu with the same checks and a probe call at the end; a state is a distinct shared fingerprint, a transition one API call",
+		Rule:   "explicit-state search on the fingerprint of everything shared and mutable (deep reflect/unsafe hash of the IPAConfig incl. all precomputed tables, and of every package-level variable: generator, identities, labels, moduli, sqrt tables ...): a menu of 27 API calls with fresh arguments is applied from every reachable state; after EVERY call the shared fingerprint must equal the initial one (on a pure tree the state space is one state with 27 self-loops and the search completes), every caller-supplied argument must be bit-identical to its pre-call deep copy up to slice capacity (commitments given to CreateMultiProof may only change representation), and each call's result digest must equal its result on a fresh process state; then ALL histories of depth 2 (3 thorough) over the menu with the same checks and a probe call at the end; a state is a distinct shared fingerprint, a transition one API call",
 		Assume: []string{"the fingerprint covers memory reachable from the config and from the exported/unexported package variables of go-ipa (gnark-crypto internals are outside)", "result digests are deterministic functions of the inputs (established by C03)"},
 		Units:  c13Units,
 	})
